@@ -11,8 +11,10 @@ out = Path("/verif/seeded") / name
 out.mkdir(parents=True, exist_ok=True)
 seed = d / "seed"
 for f in seed.iterdir():
-    if f.is_file():
+    if f.is_file() and not f.name.startswith("FOREIGN"):
         shutil.copy(f, out / f.name)
+    elif f.is_dir() and f.name != "__pycache__":
+        shutil.copytree(f, out / f.name, dirs_exist_ok=True, ignore=shutil.ignore_patterns("__pycache__"))
 meta = json.loads((out / "meta.json").read_text()) if (out / "meta.json").exists() else {}
 env = dict(os.environ, PYTHONPATH=f"{d}/src")
 demo = next((f for f in seed.iterdir() if f.name.startswith("demo") or f.name.startswith("test_")), None)
@@ -24,12 +26,15 @@ def run_demo():
     p = subprocess.run(cmd, cwd=d, env=env, capture_output=True, text=True, timeout=600)
     return p.returncode
 
+# bring the worktree to exactly "HEAD + the delivered patch" (git stash is shared between worktrees: not used here)
+subprocess.run(["git", "-C", str(d), "checkout", "--", "src"], check=True)
+subprocess.run(["git", "-C", str(d), "apply", str(seed / "patch.diff")], check=True)
 with_change = run_demo()
-subprocess.run(["git", "-C", str(d), "stash", "-q", "--", "src"], check=True)
+subprocess.run(["git", "-C", str(d), "apply", "-R", str(seed / "patch.diff")], check=True)
 try:
     without_change = run_demo()
 finally:
-    subprocess.run(["git", "-C", str(d), "stash", "pop", "-q"], check=True)
+    subprocess.run(["git", "-C", str(d), "apply", str(seed / "patch.diff")], check=True)
 suite = subprocess.run(["/venv/bin/python", "-m", "pytest", "-q", "-p", "no:cacheprovider", "--timeout=900", "--continue-on-collection-errors"],
                        cwd=d, env=env, capture_output=True, text=True, timeout=1200)
 suite_line = [l for l in suite.stdout.splitlines() if "passed" in l or "failed" in l][-1:] or ["?"]
